@@ -1834,7 +1834,7 @@ theorem runInner_regular (mode : Mode) (c : Nat) (sig : Sig) (raw : List Bytes) 
     (runInner mode c sig raw s).2.srv.time = s.srv.time := by
   intro o
   unfold runInner
-  rw [runWith_regular_run _ mode c sig raw false h s]
+  rw [runWith_regular_run _ mode c sig raw false h s (Sys.refuses_of_unsubscribed sig hps)]
   have ho : s.regularOut c sig body raw false = o := by
     unfold Sys.regularOut
     rw [hps]
